@@ -208,9 +208,13 @@ def generate(repo):
         raise Untranslatable("finalize: `if num_frames >= 1` not found")
     PF = P + " (first : Bool) (bufLen : Int)"
     for v in ("pad_left", "num_frames"):
+        if v not in st.env:
+            raise Untranslatable("finalize: lost track of " + v)
         out.append(emit("fin_" + v, PF, *st.env[v]))
     inner = Sym(st.env)
     inner.run(stop.body)
+    if "pad_right" not in inner.env:
+        raise Untranslatable("finalize: lost track of pad_right")
     out.append(emit("fin_pad_right", PF, *inner.env["pad_right"]))
     # ---- compute_chunk
     f = find_func(cls, "compute_chunk")
